@@ -478,8 +478,7 @@ for r, what in (('R1', 'mixture_model_utils / cacgmm / cACG'), ('R2', 'cwmm / cb
 #      zip / ndindex, moveaxis / transpose / swapaxes, clip / maximum, named constants, max(key=...), merged einsum branches, einsum <-> sum / matmul / broadcasting)
 for r, what in (('R21', 'mixture_model_utils / cacgmm / cACG'), ('R22', 'cwmm / cbmm / Watson / Bingham / distribution.utils'), ('R23', 'gmm / gaussian / vMF / gcacgmm / vmfcacgmm'),
                 ('R24', 'beamformer / beamformer_wrapper / math.solve'), ('R25', 'permutation_alignment / initializers'), ('R26', 'mask_module / sxr_module / si_sdr / utils')):
-    C.append(dict(id=f'N4-{r}-restructuring', kind='neutral', properties=ALLP, note=f'independent deeper restructuring of {what}', patch=f'neutral_patches/{r}.patch', edits=[],
-                  inconclusive_ok={'R23': ['C08']}.get(r, [])))
+    C.append(dict(id=f'N4-{r}-restructuring', kind='neutral', properties=ALLP, note=f'independent deeper restructuring of {what}', patch=f'neutral_patches/{r}.patch', edits=[]))
 # ---- third campaign: a free mix of both families (16-20 edits per patch)
 for r, what in (('R31', 'mixture_model_utils / cacgmm / cACG'), ('R32', 'cwmm / cbmm / Watson / Bingham / distribution.utils'), ('R33', 'gmm / gaussian / vMF / gcacgmm / vmfcacgmm'),
                 ('R34', 'beamformer / beamformer_wrapper / math.solve'), ('R35', 'permutation_alignment / initializers'), ('R36', 'mask_module / sxr_module / si_sdr / utils')):
